@@ -736,6 +736,7 @@ func (pf *ParserFacts) guardedByIdx(s SlotStore, v ssa.Value, onlyIdx int64, acc
 	var used []string
 	target := s.Instr.Block()
 	loops := naturalLoops(fn)
+	var loopSkips []string
 	for _, a := range atoms {
 		if !acc[a.kind] {
 			continue
@@ -746,8 +747,54 @@ func (pf *ParserFacts) guardedByIdx(s SlotStore, v ssa.Value, onlyIdx int64, acc
 		used = append(used, string(a.kind))
 		// loop guard (lists): failing edge must be an error exit, the loop must come before the store
 		if hdr := loops[b]; hdr != nil && hdr.Dominates(target) && !loops2(loops, target, hdr) && leadsToErrorReturn(fail, 0) {
-			return true, "guard " + string(a.kind) + " in a loop over the values, error exit on failure"
+			// every iteration passes the test: no path from the start of the body back to the
+			// loop header avoids the passing edge of the guard
+			body := loopBody(hdr)
+			lcut := map[[2]*ssa.BasicBlock]bool{{b, pass}: true}
+			for blk := range body {
+				for _, sc := range blk.Succs {
+					if !body[sc] {
+						lcut[[2]*ssa.BasicBlock{blk, sc}] = true
+					}
+				}
+			}
+			// an iteration that hands the element's type to its untyped counterpart
+			// (variables[i].valueType = valueType) makes the two equal without a test
+			adopted := 0
+			for blk := range body {
+				for _, ins := range blk.Instrs {
+					st, ok := ins.(*ssa.Store)
+					if !ok || !d.types[st.Val] {
+						continue
+					}
+					if _, ok := st.Addr.(*ssa.FieldAddr); !ok {
+						continue
+					}
+					adopted++
+					for _, sc := range blk.Succs {
+						lcut[[2]*ssa.BasicBlock{blk, sc}] = true
+					}
+				}
+			}
+			skipped := false
+			for _, sc := range hdr.Succs {
+				if body[sc] && sc != hdr && reachableFromWithout(sc, lcut, hdr) {
+					skipped = true
+				}
+			}
+			if skipped {
+				loopSkips = append(loopSkips, string(a.kind))
+				continue
+			}
+			how := "passed by every iteration"
+			if adopted > 0 {
+				how = "passed by every iteration that does not hand the element's type to an untyped counterpart"
+			}
+			return true, "guard " + string(a.kind) + " in a loop over the values, " + how + ", error exit on failure"
 		}
+	}
+	if len(loopSkips) > 0 {
+		return false, "the loop that tests " + strings.Join(uniq(loopSkips), "/") + " on the elements lets some iterations reach the next element without passing the test (a continue / early branch skips it)"
 	}
 	if len(cut) == 0 {
 		return false, "no test of kind " + fmt.Sprint(accepted) + " on the value's type"
@@ -796,6 +843,27 @@ func naturalLoops(fn *ssa.Function) map[*ssa.BasicBlock]*ssa.BasicBlock {
 		}
 	}
 	return out
+}
+
+// loopBody: the blocks of the natural loop(s) with the given header.
+func loopBody(hdr *ssa.BasicBlock) map[*ssa.BasicBlock]bool {
+	body := map[*ssa.BasicBlock]bool{hdr: true}
+	for _, p := range hdr.Preds {
+		if !hdr.Dominates(p) {
+			continue
+		}
+		stack := []*ssa.BasicBlock{p}
+		for len(stack) > 0 {
+			n := stack[len(stack)-1]
+			stack = stack[:len(stack)-1]
+			if body[n] {
+				continue
+			}
+			body[n] = true
+			stack = append(stack, n.Preds...)
+		}
+	}
+	return body
 }
 
 func loops2(loops map[*ssa.BasicBlock]*ssa.BasicBlock, b, hdr *ssa.BasicBlock) bool {
